@@ -46,7 +46,7 @@ MACRO_KINDS = sorted(MACRO_FAMILIES)
 CLASSES = (['tr-m-minus1:' + a for a in ('surf-tr', 'trcl-num', 'fill-num',
                                          'trcl-inline13', 'fill-inline13',
                                          'trcl-star13', 'fill-star13',
-                                         'star-tr-card')]
+                                         'star-tr-card', 'tr-with-jumps')]
            + ['lattice-no-option', 'lattice-wrong-dim', 'lattice-extra-range']
            + [f'surf-few:{k}' for k in ELEM_KINDS]
            + [f'surf-many:{k}' for k in ELEM_KINDS]
@@ -119,6 +119,25 @@ def build_pair(case):
             bad = copy.deepcopy(deck)
             bad.trs[0].mflag = -1
             return deck, bad, f'TR{trc.id} m=-1 (fill)'
+        if arg == 'tr-with-jumps':
+            deck = c04.build(_Sub(case, f'{rng.choice(["surf-tr", "trcl-num"])}'
+                                  '|generic'))
+            trc = deck.trs[0]
+            full = [float(v) for v in trc.motion.b.reshape(9)]
+            pattern = rng.choice(['rows', 'cols', 'none'])
+            if pattern == 'rows':
+                ent = full[:6] + [None, None, None]
+            elif pattern == 'cols':
+                ent = [full[0], full[1], None, full[3], full[4], None,
+                       full[6], full[7], None]
+            else:
+                from ..mcnp_ref import Motion
+                trc.motion = Motion(trc.motion.o)
+                ent = [None] * 9
+            trc.entries, trc.starred, trc.mflag = ent, False, 1
+            bad = copy.deepcopy(deck)
+            bad.trs[0].mflag = -1
+            return deck, bad, f'TR{trc.id} with J entries and m=-1'
         if arg == 'star-tr-card':
             deck = c04.build(_Sub(case, f'{rng.choice(["surf-tr", "trcl-num"])}'
                                   '|generic'))
